@@ -251,6 +251,19 @@ func c13Run(c *mon.Ctx) {
 				d = 0
 			}
 			bl, bn := sphere.Dest(lat, lon, d, r.Float64()*360)
+			if r.Intn(4) == 0 {
+				// the partner on the same parallel (bit-identical latitude), east or west
+				if q := math.Sin(d/(2*sphere.R)) / math.Cos(lat*math.Pi/180); q < 1 {
+					dl := 2 * math.Asin(q) * 180 / math.Pi
+					if r.Intn(2) == 0 {
+						dl = -dl
+					}
+					if nl := lon + dl; math.Abs(nl) < 179 {
+						bl, bn = lat, nl
+						c.Count("circle_pairs_same_parallel")
+					}
+				}
+			}
 			if math.Abs(bl)+1.1*m2/sphere.R*180/math.Pi > 85 {
 				return
 			}
@@ -401,6 +414,6 @@ func init() {
 		Rule:        "random circles (centres biased to poles and antimeridian; radii sub-metre .. half the circumference incl. boundary values; step counts -5..4096) each probed by 10 points placed at controlled reference distances (r(1+-10^-k), r+-(1.001..3) tol, r+-1.0001 tol, inside the undecided band, interior, exterior, the centre) on random bearings and on/between polygon vertices, through Point and SimplePoint, Contains/Intersects/Within in both operand orders; monotonicity in the radius; JSON layout and reparse (m and km); closedness, centre containment and centring of the polygon approximation; circle/circle pairs placed around the containment and intersection boundaries. Non-trivial = distinct probe within 10 tolerances of the circle.",
 		Assumptions: []string{"reference distance: internal/sphere; decided only outside +-tol(1+1e-6), tol = max(1 mm, 1e-8 r)", "circle/circle is asserted away from poles and the antimeridian and with an allowance of 1e-5 of the radii for the library's centre-distance estimate", "known finding F22 (radius within 1 m of half the circumference) is matched with a magnitude bound"},
 		Run:         c13Run,
-		MustSee:     []string{"probes_decided", "probes_in_undecided_band", "monotone_checked", "km_checked", "polygons_checked", "polygon_centred_checked", "circle_pairs", "circle_contains_circle_true", "out_of_domain_radii", "out_of_domain_reparsed", "large_circle_pairs", "requeried_after_use"},
+		MustSee:     []string{"probes_decided", "probes_in_undecided_band", "monotone_checked", "km_checked", "polygons_checked", "polygon_centred_checked", "circle_pairs", "circle_pairs_same_parallel", "circle_contains_circle_true", "out_of_domain_radii", "out_of_domain_reparsed", "large_circle_pairs", "requeried_after_use"},
 	})
 }
